@@ -49,7 +49,7 @@ pub enum ProcessGroupPolicy { NewProcessGroup, SameProcessGroup }
 pub struct ExecutionParameters { pub open_files: OpenFiles, pub process_group_policy: ProcessGroupPolicy, pub suppress_errexit: bool }
 impl Clone for ExecutionParameters { #[verifier::external_body] fn clone(&self) -> (r: Self) ensures r == *self { unimplemented!() } }
 
-pub struct RuntimeOptions { pub run_last_pipeline_cmd_in_current_shell: bool, pub enable_job_control: bool }
+// RuntimeOptions: the real struct of brush-core/src/options.rs is extracted by the unit
 pub struct StageEv {
     pub node: ast::Command, pub suppress: bool, pub stdin: Option<OpenFile>, pub stdout: Option<OpenFile>,
     pub own_shell: bool, pub same_pg: bool, pub pgid_in: Option<i32>, pub ok: bool,
